@@ -557,6 +557,11 @@ def shrink(ctx, hist, bad_fn, limit=60):
         rc, R, S, M, flat, _ = run_all(ctx, [h], "shrink", want_m=bad_fn is first_bad_m)
         return (bad_fn(R, S, 0, len(flat)) if bad_fn is first_bad_s else bad_fn(R, M, S, 0, len(flat))) is not None
     cur = list(hist)
+    # nothing after the first failing operation matters
+    rc, R, S, M, flat, _ = run_all(ctx, [cur], "shrink", want_m=bad_fn is first_bad_m)
+    i0 = bad_fn(R, S, 0, len(flat)) if bad_fn is first_bad_s else bad_fn(R, M, S, 0, len(flat))
+    if i0 is not None and i0 + 1 < len(cur) and fails(cur[:i0 + 1]):
+        cur = cur[:i0 + 1]
     n = 0
     chunk = max(1, (len(cur) - 2) // 2)
     while chunk >= 1 and n < limit:
